@@ -1,4 +1,5 @@
 """Shared extraction helpers for the engine-M obligations."""
+import re
 from mirsmt import engine as E, term as T, mir
 
 L = T.var('L')
@@ -111,7 +112,28 @@ def oracle_guard(ctx, m, prefix, pc, bounds, names=('Tq', 'Zq')):
     if has:
         return True
     from vlib import native
+    from mirsmt import smt
+
+    def replay(model, p):
+        ok, path, note = native.confirm_history(ctx, prefix)
+        if ok:
+            return ok, path, note
+        # not a history effect: take a concrete input of this path (solve its path condition over the integers) and compare
+        # the native result with the reference formula
+        try:
+            text = m.query_text(list(pc) + LEVEL_OK, None, sem=('R', 'int'))
+            verdict, out, dt = smt.run_solver(text, 'z3-new', 60, ctx.seed)
+            mdl = smt.parse_model(out) if verdict == 'sat' else {}
+        except Exception:
+            mdl = {}
+        if re.search(r'z_normal|wald', prefix):
+            return native.replay_proportion(ctx, mdl, prefix, 'wald')
+        if re.search(r'wilson', prefix):
+            return native.replay_proportion(ctx, mdl, prefix, 'wilson')
+        if re.search(r'unpaired', prefix):
+            return native.replay_unpaired(ctx, mdl, prefix)
+        return native.replay_arith(ctx, mdl, prefix)
     m.violated_structurally(prefix + ':critical-value-not-from-the-oracle', prefix + ':critical-value-source',
                             'an Ok path returns bounds whose critical value is not an application of the quantile function in this call (free symbols: %s)' % sorted(set(v for b in bounds for v in T.free_vars(b)))[:6],
-                            replay=lambda model, p: native.confirm_history(ctx, prefix))
+                            replay=replay)
     return False
